@@ -204,6 +204,10 @@ fn pattern_case(ctx: &Ctx, ch: &mut Ch) -> Outcome {
     }
     // All remaining random decisions are drawn now (the closure below must not borrow `ch`).
     let choices: Vec<usize> = (0..40).map(|_| ch.raw() as usize).collect();
+    // A near miss of the first program: one point changed by a type-breaking perturbation, or a
+    // group made one definition longer / shorter with the body still at the same index.
+    let near = if ch.chance(1, 2) { crate::gens::mutate::group_length_variant(&pa.s, ch) } else { Some(crate::gens::mutate::perturb(&pa.s, ch).0) };
+    let text_c = near.map(|n| crate::sast::print_plain(&n.flatten())).unwrap_or_else(|| pa.text.clone());
     let text_a = pa.text.clone();
     let text_b = pb.map(|b| b.text).unwrap_or_else(|| "0".to_owned());
     let input_base = text_a.clone();
@@ -221,6 +225,11 @@ fn pattern_case(ctx: &Ctx, ch: &mut Ch) -> Outcome {
         let (Ok(t_full), Ok(other_full)) = (crate::parser::parse(None, &text_a, &ta, &[]), crate::parser::parse(None, &text_b, &tb, &[])) else {
             return Ok(vec!["skipped: does not parse".into()]);
         };
+        let tc = crate::tokenizer::tokenize(None, &text_c).unwrap_or_default();
+        let near_full = if tc.is_empty() { None } else { crate::parser::parse(None, &text_c, &tc, &[]).ok() };
+        // Which other side the pattern meets (drawn first: against a near miss the pattern may
+        // have no hole at all).
+        let side = next(8);
         // With or without a context of definitions.
         let use_ctx = matches!(t_full.variant, Variant::Let(..)) && next(2) == 0;
         let (group, t): (Option<Vec<(&str, Rc<Term>, Rc<Term>)>>, Term) = match (&t_full.variant, use_ctx) {
@@ -239,7 +248,8 @@ fn pattern_case(ctx: &Ctx, ch: &mut Ch) -> Outcome {
         let mut all = vec![];
         let mut counter = 0;
         sites(&t, 0, &mut counter, &mut all);
-        let nholes = 1 + next(4);
+        let near_side = side >= 6 && near_full.is_some();
+        let nholes = if near_side && next(2) == 0 { 0 } else { 1 + next(4) };
         let mut plan: Vec<Punch> = vec![];
         let mut classes: Vec<String> = vec![];
         let mut expected_solvable = true;
@@ -273,15 +283,15 @@ fn pattern_case(ctx: &Ctx, ch: &mut Ch) -> Outcome {
             classes.push(format!("{label}{}", if s.depth >= 1 && shift >= 1 { ", under a binder with shift >= 1" } else { "" }));
             plan.push(Punch { index: s.index, cell, shift, depth: s.depth });
         }
-        if plan.is_empty() {
+        if plan.is_empty() && !near_side {
             return Ok(vec!["skipped: no hole placed".into()]);
         }
         let mut c2 = 0;
         let mut skipped = 0;
         let pattern = punch(&t, &mut c2, &plan, &mut skipped);
         // The other side.
-        let side = next(6);
         let (other, side_label): (Term, &str) = match side {
+            6 | 7 if near_side && group.is_none() => (near_full.clone().unwrap(), "a near miss of that term (one point changed, or a group one definition longer / shorter)"),
             0..=2 => (t.clone(), "the term the pattern was cut from"),
             3 => match if group.is_none() { crate::evaluator::step(&t) } else { None } {
                 Some(r) => (r, "a reduct of that term"),
@@ -363,7 +373,7 @@ fn pattern_case(ctx: &Ctx, ch: &mut Ch) -> Outcome {
         Err(p) => Err(Failure::new(format!("panic: {p}"), input_base).with_sig("panic")),
         Ok(Err(f)) => Err(f),
         Ok(Ok(classes)) => {
-            let nontrivial = classes.iter().any(|c| c.contains("under a binder with shift >= 1") || c.contains("non-linear") || c.contains("scope escape"));
+            let nontrivial = classes.iter().any(|c| c.contains("under a binder with shift >= 1") || c.contains("non-linear") || c.contains("scope escape") || c.contains("near miss"));
             for c in &classes {
                 if c.starts_with("inconclusive") {
                     ctx.inconclusive(c);
